@@ -940,4 +940,145 @@ example : xcomputeScore natOps [] nanOddObjective true .raise (.error : Raw Nat)
 
 end xworker
 
+/-! ## 5. the earlier model is the image of this one under NaN ↦ inf -/
+
+def eraseTrial (t : XTrial) : Trial :=
+  { score := xerase t.score, flops := t.flops, write := t.write, size := t.size, tree := t.tree }
+
+def eraseBest (b : XBest) : BestRec :=
+  { trial := eraseTrial b.trial, params := b.params, method := b.method }
+
+/-- the earlier model's state: NaN scores read as `inf`, `times` forgotten -/
+def eraseState (st : XState) : HState :=
+  { methodChoices := st.methodChoices, paramChoices := st.paramChoices,
+    scores := st.scores.map xerase, costsFlops := st.costsFlops, costsWrite := st.costsWrite,
+    costsSize := st.costsSize, bestScore := xerase st.bestScore, best := st.best.map eraseBest,
+    trialsSinceBest := st.trialsSinceBest,
+    optlibReports := st.optlibReports.map fun p => (p.1, xerase p.2),
+    maxTrainingSteps := st.maxTrainingSteps, submitted := st.submitted }
+
+theorem xlt_erase (a b : XScore) (hb : b ≠ .nan) : xlt a b = slt (xerase a) (xerase b) := by
+  cases a <;> cases b <;> first | rfl | exact absurd rfl hb
+
+theorem eraseState_curBest (st : XState) : (eraseState st).curBest = xerase st.curBest := by
+  unfold HState.curBest XState.curBest eraseState
+  cases st.best <;> rfl
+
+theorem xcomplete_erase (st : XState) (s : Setting) (t : XTrial) (hb : st.bestScore ≠ .nan)
+    (hc : st.curBest ≠ .nan) :
+    eraseState (xcomplete st s t) = complete (eraseState st) s (eraseTrial t) := by
+  have h1 : xlt t.score st.bestScore = slt (xerase t.score) (xerase st.bestScore) := xlt_erase _ _ hb
+  have h2 : xlt t.score st.curBest = slt (xerase t.score) (xerase st.curBest) := xlt_erase _ _ hc
+  have h3 : xlt t.score .inf = slt (xerase t.score) none := xlt_erase _ _ (by decide)
+  unfold xcomplete complete xassess assess
+  rw [xreport_curBest, report_curBest, eraseState_curBest, h2]
+  unfold xreport report
+  simp only [h1, h3]
+  have hm : (eraseTrial t).score = xerase t.score := rfl
+  cases hlt : slt (xerase t.score) (xerase st.curBest) <;>
+  cases hnb : slt (xerase t.score) (xerase st.bestScore) <;>
+  cases hrep : slt (xerase t.score) none <;>
+  cases hmts : st.maxTrainingSteps <;>
+  simp [eraseState, eraseBest, hlt, hnb, hrep, hmts, eraseTrial] <;>
+  (split <;> simp)
+
+theorem xcomplete_curBest (st : XState) (s : Setting) (t : XTrial) :
+    (xcomplete st s t).curBest = if xlt t.score st.curBest then t.score else st.curBest := by
+  have hdef : ∀ st' : XState, st'.curBest =
+      match st'.best with
+      | none => .inf
+      | some b => b.trial.score := fun _ => rfl
+  rw [hdef (xcomplete st s t), xcomplete_best]
+  by_cases h : xlt t.score st.curBest = true
+  · rw [if_pos h, if_pos h]
+  · rw [if_neg h, if_neg h]; rfl
+
+theorem xrunLog_erase_from (log : XLog) (st : XState) (hb : st.bestScore ≠ .nan)
+    (hc : st.curBest ≠ .nan) :
+    eraseState (xrunLog st log) = runLog (eraseState st) (log.map fun e => (e.1, eraseTrial e.2)) := by
+  induction log generalizing st with
+  | nil => rfl
+  | cons e l ih =>
+    simp only [xrunLog_cons, List.map_cons, runLog, List.foldl_cons]
+    rw [← xcomplete_erase st e.1 e.2 hb hc]
+    apply ih
+    · unfold xcomplete
+      rw [xassess_bestScore]
+      unfold xreport
+      simp only
+      split
+      · rename_i h; obtain ⟨x, _, hx, _, _⟩ := rank_of_xlt h; exact ne_nan_of_rank hx
+      · exact hb
+    · rw [xcomplete_curBest]
+      by_cases h : xlt e.2.score st.curBest = true
+      · rw [if_pos h]; obtain ⟨x, _, hx, _, _⟩ := rank_of_xlt h; exact ne_nan_of_rank hx
+      · rw [if_neg h]; exact hc
+
+/-- **xrunLog_erase** — the earlier model (`Model/Hyper.lean`, scores without NaN) is the image of
+    this one under the map that reads NaN as `inf`: the driver treats a NaN-scored trial exactly
+    like a failed one (never adopted, never reported to the optlib, `trials_since_best`
+    incremented), except for the value appended to `scores`.  All theorems of `Props/C08.lean`
+    about `runLog` therefore speak about the erased run. -/
+theorem xrunLog_erase (mts : Option Nat) (log : XLog) :
+    eraseState (xrunLog (XState.init mts) log) =
+      runLog (HState.init mts) (log.map fun e => (e.1, eraseTrial e.2)) :=
+  xrunLog_erase_from log (XState.init mts) (by simp [XState.init]) (by simp [XState.init, XState.curBest])
+/-! ## 6. what is fed to the optlib -/
+
+theorem xcomplete_reports (st : XState) (s : Setting) (t : XTrial) :
+    (xcomplete st s t).optlibReports =
+      if ((match st.maxTrainingSteps with
+            | none => true
+            | some m => decide (st.scores.length < m)) || xlt t.score st.bestScore)
+          && xlt t.score .inf
+      then st.optlibReports ++ [(s.params, t.score)] else st.optlibReports := by
+  unfold xcomplete
+  rw [xassess_reports]
+  rfl
+
+/-- **optlib_reports_sound** — every call of the optlib's `report_result` is for a recorded
+    trial and carries that trial's score, which is an ordered float below `+inf`: failed and
+    NaN-scored trials are never fed to the optlib. -/
+theorem optlib_reports_sound (mts : Option Nat) (log : XLog) :
+    ∀ p ∈ (xrunLog (XState.init mts) log).optlibReports,
+      xlt p.2 .inf = true ∧ ∃ e ∈ log, e.1.params = p.1 ∧ e.2.score = p.2 := by
+  induction log using List.reverseRecOn with
+  | nil => intro p hp; cases hp
+  | append_singleton l e ih =>
+    obtain ⟨s, t⟩ := e
+    rw [xrunLog_snoc, xcomplete_reports]
+    intro p hp
+    generalize hw : (match (xrunLog (XState.init mts) l).maxTrainingSteps with
+      | none => true
+      | some m => decide ((xrunLog (XState.init mts) l).scores.length < m)) = w at hp
+    cases hcond : ((w || xlt t.score (xrunLog (XState.init mts) l).bestScore)
+        && xlt t.score .inf) with
+    | true =>
+      rw [hcond, if_pos rfl] at hp
+      rcases List.mem_append.1 hp with hp | hp
+      · obtain ⟨h1, e', he', h2⟩ := ih p hp
+        exact ⟨h1, e', List.mem_append_left _ he', h2⟩
+      · simp only [List.mem_singleton] at hp
+        subst hp
+        simp only [Bool.and_eq_true] at hcond
+        exact ⟨hcond.2, (s, t), by simp, rfl, rfl⟩
+    | false =>
+      rw [hcond] at hp
+      simp only [Bool.false_eq_true, if_false] at hp
+      obtain ⟨h1, e', he', h2⟩ := ih p hp
+      exact ⟨h1, e', List.mem_append_left _ he', h2⟩
+
+/-- without `max_training_steps` every trial with a usable score is reported, in completion
+    order -/
+theorem optlib_reports_complete (log : XLog) :
+    (xrunLog (XState.init none) log).optlibReports =
+      (log.filter fun e => xlt e.2.score .inf).map fun e => (e.1.params, e.2.score) := by
+  induction log using List.reverseRecOn with
+  | nil => rfl
+  | append_singleton l e ih =>
+    obtain ⟨s, t⟩ := e
+    rw [xrunLog_snoc, xcomplete_reports, ih, xrunLog_mts]
+    simp only [XState.init, Bool.true_or, Bool.true_and, List.filter_append, List.map_append]
+    cases h : xlt t.score .inf <;> simp [h]
+
 end Cotengra.C08
